@@ -12,7 +12,9 @@ OutFile == IOEnv.OUT
 CovKeys == {"rows", "bk_exact", "bk_exact_nonsingular", "bk_exact_singular", "bk_singular_reported", "bk_meas", "bk_meas_judged", "bk_meas_illcond",
             "bk_proto", "bk_n1", "bk_complex", "qr_rows", "qr_exact", "eig_rows", "eig_exact", "matop_rows", "matop_configs"}
 Bump(c, key, by) == [c EXCEPT ![key] = @ + by]
-Hit(rule) == [r |-> rule, run |-> 1, l |-> l]
+\* run = ordinal of the Reset line (descriptor) this row belongs to; computed only when a hit is recorded
+RunOf(k) == Cardinality({i \in 1 .. k : Tr[i].e = "Reset"})
+Hit(rule) == [r |-> rule, run |-> RunOf(l), l |-> l]
 If(c, rule) == IF c THEN {} ELSE {Hit(rule)}
 AddHits(m, new) == IF Cardinality(m) > 300 THEN m ELSE m \cup new
 
